@@ -12,6 +12,7 @@ import RxModel.Model.Unicode
 import RxModel.Props.C02
 import RxModel.Props.C05
 import RxModel.Props.C06
+import RxModel.Props.Findings
 import Std.Data.HashMap
 namespace Rx.Driver
 open Rx
@@ -164,6 +165,15 @@ def runFull (dialect mode : String) (pattern flags : List Nat) (api : String) (i
   | .ok r =>
     if api == "dump" then
       progS ((parseFlags flags (dialect == "xs")).getD {}) r
+    else if api == "witness" then
+      -- is the program term of Props/Findings (about which the K* theorems speak) the program compiled for this pattern?
+      let tbl : List (String × Prog) := [("K2", Findings.progK2), ("K3", Findings.progK3), ("K4", Findings.progK4),
+                                         ("K9", Findings.progK9), ("K9'", Findings.progK9')]
+      let key (p : Prog) : String := opS p.op ++ s!" {p.minLen} {p.hasBol} {p.hasBackrefs} {p.maxParens} {p.caseBlind} {p.multiLine} " ++
+        String.join (p.pres.map fun q => s!"(pre {opS q.op} {match q.fixed with | some f => toString f | none => "none"} {q.minPos})")
+      match tbl.lookup (String.ofList (input.map Char.ofNat)) with
+      | some pr => if key pr == key { r.prog with pattern := [] } then "WITNESS:same" else "WITNESS:differs " ++ key r.prog
+      | none => "WITNESS:unknown"
     else runRegex r api input repl limit
 
 /-- the decidable hypotheses of the engine theorems, evaluated on a concrete compiled program -/
